@@ -5,9 +5,11 @@ from specrt import *   # noqa  (native runtime: map_children, fold_lambda, ...)
 
 
 def agg_lower(n: Py) -> Py:
-    """len(s)/Count(s)/Sum(s)/Max(s)/Min(s) with exactly one positional argument -> Aggregate fold
-    seeded with 0; every other node rebuilt homomorphically (property C19)."""
-    if isinstance(n, ast.Call) and isinstance(n.func, ast.Name) and len(n.args) == 1:
+    """len(s)/Count(s)/Sum(s)/Max(s)/Min(s) with exactly one argument (one plain positional
+    argument, no keyword, not starred) -> Aggregate fold seeded with 0; every other node, calls with
+    another argument count included, rebuilt homomorphically (property C19)."""
+    if isinstance(n, ast.Call) and isinstance(n.func, ast.Name) and len(n.args) == 1 \
+            and len(n.keywords) == 0 and not isinstance(n.args[0], ast.Starred):
         if n.func.id == "len" or n.func.id == "Count":
             return agg_call(agg_lower(n.args[0]), "count")
         if n.func.id == "Sum":
@@ -21,14 +23,3 @@ def agg_lower(n: Py) -> Py:
 
 def agg_call(seq: Py, kind: S) -> Py:
     return ast.Call(ast.Name("Aggregate"), [seq, ast.Constant(0), fold_lambda(kind)], [])
-
-
-def agg_kwfree(n: Py) -> B:
-    """Domain restriction (stated in DESIGN C19): calls to the five shortcut names carry no
-    keyword arguments — the property is silent about them."""
-    if isinstance(n, ast.Call) and isinstance(n.func, ast.Name):
-        if n.func.id == "len" or n.func.id == "Count" or n.func.id == "Sum" \
-                or n.func.id == "Max" or n.func.id == "Min":
-            if len(n.keywords) != 0:
-                return False
-    return all_children(agg_kwfree, n)
